@@ -167,7 +167,7 @@ func c17Run(cs *c17Case, r *gen.Rand) {
 				o.Found, o.IsDir, o.Size = true, attr.Mode.IsDir(), attr.Size
 				// the attributes by inode agree with those of the lookup
 				ga := &fuseops.GetInodeAttributesOp{Inode: child}
-				if err := f.ops.GetInodeAttributes(ctx, ga); err != nil || ga.Attributes.Size != attr.Size || ga.Attributes.Mode != attr.Mode {
+				if err := f.ops.GetInodeAttributes(ctx, ga); err != nil || ga.Attributes.Size != attr.Size || ga.Attributes.Mode != attr.Mode || ga.Attributes.Nlink != attr.Nlink {
 					o.Err = "GetInodeAttributes disagrees with LookUpInode"
 				}
 			case "readdir":
